@@ -112,9 +112,6 @@ Proof.
   - intros y [->|Hy]; auto.
 Qed.
 
-Definition known_len (c : acoll) : nat :=
-  match max_opt (map fst (known c)) with Some l => S l | None => 0 end.
-
 Lemma all_required_spec {K} (c : coll_ K kind) key kk : all_required c = true -> In (key, kk) (known c) ->
   p_undefined (prims_of kk) = false.
 Proof.
